@@ -75,3 +75,47 @@ Proof.
   - rewrite rv_pq_trigger. etransitivity; [|apply (rv_send_msg _ _)]. Time reflexivity.
   - rewrite rv_send_msg. reflexivity.
 Time Qed.
+
+Lemma rv_process_queue s : rv (fst (process_queue s)) = rv s.
+Proof.
+  unfold process_queue. cbv zeta. cbn [tx_tmp in_sess in_term pend_start set].
+  destruct (tx_tmp s) as [p|] eqn:T.
+  - cbn [fst]. rewrite rv_send_next. reflexivity.
+  - destruct (negb (in_sess s)); [reflexivity|]. destruct (in_term s); [reflexivity|].
+    destruct (pend_start s) as [|[id data] rest]; [reflexivity|].
+    cbn [fst]. rewrite rv_send_next, rv_emit by reflexivity. reflexivity.
+Qed.
+
+Lemma rv_merge_session_params s : rv (fst (merge_session_params s)) = rv s.
+Proof.
+  unfold merge_session_params.
+  destruct (sessinit_this s) as [this|]; [|reflexivity].
+  destruct (sessinit_peer s) as [peer|]; [|reflexivity].
+  destruct (negb (ascii (si_nodeid peer))); reflexivity.
+Qed.
+
+Lemma rv_flush_fold l : forall s0,
+  rv (fold_left (fun s it =>
+               emit (ESig SigSendFinished [PStrNum (fst it); PInt 0; PStr RES_TERMINATING])
+                    (s <| tx_map := dict_del (fst it) (tx_map s) |>)) l s0) = rv s0.
+Proof.
+  induction l as [|it l IH]; intros s0; cbn [fold_left]; [reflexivity|].
+  rewrite IH, rv_emit by reflexivity. reflexivity.
+Qed.
+
+Lemma rv_flush_pend_start s : rv (flush_pend_start s) = rv s.
+Proof. unfold flush_pend_start. rewrite rv_flush_fold. reflexivity. Qed.
+
+Lemma rv_tx_proxy a s : rv (fst (tx_proxy a s)) = rv s.
+Proof.
+  unfold tx_proxy.
+  match goal with |- context [if ?c then ?x else ?y] =>
+    assert (H : rv (fst (if c then x else y)) = rv s) end.
+  { destruct (_ <? CHUNK); cbn [fst]; [|reflexivity].
+    etransitivity; [|apply (rv_sbd (N.of_nat (length (skipn chunk_nat (msg_tx s)))) (s <| msg_tx := skipn chunk_nat (msg_tx s) |>))].
+    reflexivity. }
+  match goal with |- context [if ?c then ?x else ?y] => destruct (if c then x else y) as [s1 ue] end.
+  cbn [fst] in H. destruct (is_nil (conn_tx s1)); [exact H|].
+  cbv zeta. destruct (_ =? 0); cbn [fst]; [rewrite rv_do_close; exact H|].
+  rewrite <- H. reflexivity.
+Qed.
